@@ -15,7 +15,7 @@
 EXTENDS Integers, Sequences, FiniteSets, TLC
 TreeDims == [shape : {"empty", "flat1", "wide40", "wide300", "deep8", "deep9", "mixed"},
              sizes : {"small", "multi"},
-             names : {"plain83", "long", "collide", "unicode"},
+             names : {"plain83", "long", "collide", "unicode", "dotfiles"},
              links : {"no", "yes"}]
 IsoDims == [rr : {"rr", "norr"}, joliet : {"jol", "nojol"}, deep : {"deep", "nodeep"},
             bs : {"2048", "4096", "8192"}, start : {"s0", "s1m"}]
